@@ -15,10 +15,10 @@ from .. import custom, gen, model as M, refmodel as R
 KINDS = ["pose", "vertex", "odo", "lm", "custom", "graph"]
 RULE = ("cases from rng(seed, 17, 0, i): object category = i mod 6 of pose / vertex / odometry edge / landmark edge / custom edge / graph; y derived from x by (a) copy, (b) a single-"
         "component perturbation of magnitude 10^U(-12,3) x tol x max(||array||, tol) in one compared array, (c) a structural difference (other pose class of equal or different "
-        "size, other id, other edge class, other estimate kind/size, other information shape, instance of a subclass, extra element, swapped order; graphs whose vertices span scales 1e-3..1e4); tol in 10^U(-12,-2); both directions evaluated. "
+        "size, other id, other edge class, other estimate kind/size, other information shape, shapes that differ but broadcast to an all-zero difference, instance of a subclass, one vertex's pose swapped after construction for its equal-size sibling class (also in graphs of 64-130 vertices), extra element, swapped order; graphs whose vertices span scales 1e-3..1e4); tol in 10^U(-12,-2); both directions evaluated. "
         "distinct = fingerprint(x, mutation); non-trivial = mutation other than copy with a decided expectation.")
 REQ = ["eval:equals-never-raises", "eval:equals-expected-true", "eval:equals-expected-false", "cat:pose", "cat:vertex", "cat:odo", "cat:lm", "cat:custom", "cat:graph", "mut:copy",
-       "mut:perturb_below", "mut:perturb_above", "mut:class_same_size", "mut:class_other_size", "mut:id", "mut:edge_class", "mut:estimate_size", "mut:information_shape",
+       "mut:perturb_below", "mut:perturb_above", "mut:class_same_size", "mut:class_other_size", "mut:id", "mut:edge_class", "mut:estimate_size", "mut:broadcastable_shape", "mut:vertex_class_swapped", "class:graph_64+_vertices", "mut:information_shape",
        "mut:graph_extra_element", "mut:graph_order", "mut:offset", "mut:offset_id", "mut:edge_subclass", "class:graph_multi_scale", "class:default_tol_argument_omitted", "mut:ids_container", "mut:pose_subclass", "class:graphs_used_and_restored_before_comparison"]
 PLAN = {
     "quick": {"cases": 12000, "soft_s": 60, "min_nontrivial": 3000, "require": REQ},
@@ -216,7 +216,7 @@ def elem_case(ctx, cat, rng, tol):
     if cat != "pose":
         muts += ["id"]
     if cat in ("odo", "lm", "custom"):
-        muts += ["edge_class", "edge_subclass", "estimate_size", "information_shape", "n_vertex_ids", "ids_container"]
+        muts += ["edge_class", "edge_subclass", "estimate_size", "information_shape", "n_vertex_ids", "ids_container", "broadcastable_shape"]
     if cat == "lm":
         muts += ["offset", "offset_id", "offset_none"]
     mut = str(rng.choice(muts))
@@ -296,6 +296,9 @@ def elem_case(ctx, cat, rng, tol):
         s2["est"] = list(spec["est"]) + [0.0] if rng.random() < 0.5 else [float(x) for x in rng.normal(size=len(spec["est"]) + 2)]
         s2["est_kind"] = "array"
         exp_xy = exp_yx = False
+    elif mut == "broadcastable_shape":
+        # arrays of different shapes whose element-wise difference would nevertheless be all zero under numpy broadcasting
+        exp_xy = exp_yx = False
     elif mut == "information_shape":
         n = len(spec["info"])
         s2["info"] = np.eye(n + 1).tolist()
@@ -322,6 +325,21 @@ def elem_case(ctx, cat, rng, tol):
                 y.pose = as_subclass_pose(y.pose)
             else:
                 y.estimate = as_subclass_pose(y.estimate)
+        if mut == "broadcastable_shape":
+            c = float(rng.choice([0.0, 1.0, float(rng.normal())]))
+            n = len(spec["info"])
+            if cat == "custom" and spec.get("est_kind") not in R.KINDS and rng.random() < 0.6:
+                m = max(2, int(np.size(x.estimate)))
+                x.estimate = np.full(m, c)
+                y.estimate = [np.array([c]), np.array(c), np.full((1, m), c), c][int(rng.integers(4))]
+                feats["array"] = "estimate"
+            else:
+                x.information = np.full((n, n), c)
+                alts = [np.full((1, n), c), np.full((1, 1), c), np.full(n, c), np.full((n, 1), c)] if n >= 2 else [np.full(1, c), np.array(c), np.full((1, 1, 1), c)]
+                y.information = alts[int(rng.integers(len(alts)))]
+                feats["array"] = "information"
+            if rng.random() < 0.5:
+                x, y = y, x
         if mut == "ids_container":
             # the same ids held in a tuple / numpy array instead of a list (the loader produces lists; client code is free to pass tuples)
             y.vertex_ids = tuple(y.vertex_ids) if rng.random() < 0.5 else np.array(y.vertex_ids)
@@ -343,9 +361,16 @@ def elem_case(ctx, cat, rng, tol):
 
 
 def graph_case(ctx, rng, tol):
-    spec, _ = gen.cluster_graph(rng, size=(2, 4), custom=bool(rng.random() < 0.5), weird_ids=False)
+    big = bool(rng.random() < 0.08)
+    if big:
+        spec, _ = gen.cluster_graph(rng, kinds=[str(rng.choice(["se2", "r3", "se3", "r2"]))], size=(64, 130), custom=False, weird_ids=False)
+        ctx.count("class:graph_64+_vertices")
+    else:
+        spec, _ = gen.cluster_graph(rng, size=(2, 4), custom=bool(rng.random() < 0.5), weird_ids=False)
     s2 = gen.copy_spec(spec)
-    mut = str(rng.choice(["copy", "perturb_vertex", "perturb_edge", "graph_extra_element", "graph_order", "class_other_size"]))
+    mut = str(rng.choice(["copy", "perturb_vertex", "perturb_edge", "graph_extra_element", "graph_order", "class_other_size", "vertex_class_swapped"]))
+    if big and rng.random() < 0.5 and any(v["kind"] in ("se2", "r3") for v in spec["vertices"]):
+        mut = "vertex_class_swapped"
     exp = None
     feats = {"category": "graph", "mutation": mut}
     if rng.random() < 0.5:
@@ -378,6 +403,11 @@ def graph_case(ctx, rng, tol):
         # the perturbation is relative to x's norm; y's norm differs by a factor <= (1 + 1e3 tol) <= 11, so stay a decade away from the band
         exp = (True, True) if below else (False, False)
         ctx.count("mut:perturb_below" if below else "mut:perturb_above")
+    elif mut == "vertex_class_swapped":
+        if not any(v["kind"] in ("se2", "r3") for v in spec["vertices"]):
+            ctx.skip("no vertex with a same-size sibling class")
+            return
+        exp = (False, False)
     elif mut == "graph_extra_element":
         if rng.random() < 0.5:
             s2["vertices"].append({"id": 10 ** 6, "kind": "r2", "pose": [0.0, 1.0], "fixed": False})
@@ -411,6 +441,18 @@ def graph_case(ctx, rng, tol):
         ctx.skip("graph could not be constructed")
         return
     case = {"category": "graph", "x": {k: v for k, v in spec.items() if k != "truth_by_id"}, "y": {k: v for k, v in s2.items() if k != "truth_by_id"}, "tol": tol}
+    if mut == "vertex_class_swapped":
+        # after construction one vertex's pose is replaced by the same three numbers held in the sibling class of equal size (SE(2) <-> R^3)
+        cand = [j for j, v in enumerate(y._vertices) if M.kind(v.pose) in ("se2", "r3")]
+        j = cand[int(rng.integers(len(cand)))]
+        v = y._vertices[j]
+        vals = M.fl(v.pose)
+        if M.kind(v.pose) == "se2":
+            v.pose = M.PoseR3(vals)
+        else:
+            v.pose = M.PoseSE2(vals[:2], R.val(R.wrap(vals[2])))
+            x._vertices[j].pose = M.PoseR3([vals[0], vals[1], float(M.fl(v.pose)[2])])
+        case["swapped_vertex_index"] = j
     if stale:
         # both graphs have been used (chi2 computed / optimized) and one of them was then edited and restored through its public attributes:
         # element by element they are identical again, whatever they cached meanwhile
